@@ -359,6 +359,30 @@ def rule_set(ctx, R):
                 aggs = [r[2] for r in P.roots if r[0] == "agg" and r[1] == AUTHD] if P is not None else []
                 others = [r for r in P.roots if r[0] == "agg" and r[1] != AUTHD] if P is not None else []
                 why = auth_store_context(ctx, fn, b, i, aggs if others else None)
+                if why is None and b.kind != "Closure" and not any(bb_["t"]["k"] == "switch" for bb_ in b.bbs if not bb_.get("cleanup")):
+                    # a plain setter (`Connection::mark_authenticated`): judged where it is used --
+                    # called, or handed by path to a function that runs it on a connection
+                    uses = []
+                    for fn2, b2 in ctx.prog.bodies.items():
+                        if "::tests::" in fn2:
+                            continue
+                        for i2, t2 in b2.calls():
+                            if callee(t2) == fn or any(isinstance(a_, dict) and a_.get("fn") == fn for a_ in (t2.get("a") or [])):
+                                uses.append((fn2, b2, i2))
+                    whys = []
+                    for fn2, b2, i2 in uses:
+                        w2 = auth_store_context(ctx, fn2, b2, i2, None)
+                        if w2 is None:
+                            try:
+                                ex2 = boolpath.explore(b2, PasswordEqSpec())
+                                if i2 not in ex2.reached:
+                                    w2 = "AUTH with exact password equality"
+                            except boolpath.TooManyStates:
+                                pass
+                        whys.append(w2)
+                    if uses and all(w is not None for w in whys):
+                        why = "setter; every use justified: " + ", ".join(sorted(set(whys)))
+                        n += len(uses) - 1
                 R.inst(fn, "store-authenticated", {"function": fn, "at": "%s:%s" % (b.file, st.get("line")), "context": why})
                 if why is None:
                     R.finding(fn, "store-authenticated:unjustified",
